@@ -104,6 +104,16 @@ def gen(out):
         raise Missing(f"{clean}: construction of the archiver in cleanup_up_to")
     out.append(f"Definition walarch_cleaner_archives_own_dir : bool := {'true' if own else 'false'}.")
 
+    # both readers of a log file iterate BufReader::lines() (so a last line without "\n" is a line); the archiver
+    # skips blank lines and lines that do not deserialize, and fails on a line that is not UTF-8
+    wr = read("src/engine/core/wal/wal_recovery.rs")
+    if not re.search(r'let reader = BufReader::new\(file\);.*?for \(line_num, line\) in reader\.lines\(\)\.enumerate\(\) \{\s*let line = line\?;\s*'
+                     r'if line\.trim\(\)\.is_empty\(\) \{\s*continue;\s*\}\s*match serde_json::from_str::<WalEntry>\(&line\) \{\s*Ok\(entry\) => \{', f, re.S):
+        raise Missing(f"{arc}: from_wal_file reads the file with reader.lines() / line? / trim-skip / serde_json::from_str::<WalEntry>")
+    if not re.search(r'for line_result in reader\.lines\(\) \{\s*match line_result \{\s*Ok\(line\) => match serde_json::from_str::<WalEntry>\(&line\) \{', wr, re.S):
+        raise Missing("src/engine/core/wal/wal_recovery.rs: replay_log_file iterates reader.lines() and deserializes each line as WalEntry")
+    out.append("Definition walarch_readers_use_lines : bool := true.")
+
     # conservative mode: any archive failure returns before the deletion pass
     m = re.search(r'let failure_count = archive_results\.iter\(\)\.filter\(\|r\| r\.is_err\(\)\)\.count\(\);\s*'
                   r'if failure_count > 0 \{.*?return;\s*\}', c, re.S)
